@@ -30,6 +30,7 @@ TraceNext ==
              /\ e.r.back = v
              /\ e.r.gm = Declared(o, v)                 \* stored across region boundaries of guest memory: still the wire format
              /\ e.r.arr = <<85>> \o Declared(o, v) \o Declared(o, v) \o Declared(o, v) \o <<85>>   \* a table moved inside guest memory
+             /\ e.r.cf = Declared(o, v) \o Declared(o, v) \o Declared(o, v)      \* element-wise copy_from / copy_to on a slice at an odd address
              /\ e.r.mem = WMem(o, v, Host),              \* and this is what the macro-shaped model computes
              "endian", [mem |-> Declared(o, v)])
     /\ l' = l + 1
